@@ -750,9 +750,13 @@ func TestC18(t *testing.T) {
 		}
 	}
 	// two replies to one client decoded back to back
-	for rep := 0; rep < env.Pick(16, 320)/env.NShards+1; rep++ {
+	for rep := 0; rep < env.Pick(48, 640)/env.NShards+1; rep++ {
 		c := clientPairCase{Native: rep%2 == 0}
 		for i := 0; i < 36; i++ {
+			if rep%2 == 0 {
+				c.Kinds = append(c.Kinds, []string{"fail-fail", "fail-fail", "fail-attr", "fail-read"}[i%4])
+				continue
+			}
 			c.Kinds = append(c.Kinds, clientPairKinds[(i+rep+env.Shard)%len(clientPairKinds)])
 		}
 		f := runClientPairCase(c)
